@@ -16,7 +16,7 @@ def run_case(c):
     try:
         if c["blk"] == "spec":
             data = np.array(c["data"], dtype=float)
-            s = Surrogates(original_data=data.copy(), silence_level=3)
+            s = Surrogates(original_data=enc.represent(data, c["case"])[0], silence_level=3)
             last = {}
             for _ in range(c["k"]):          # k repeated calls on one object; the last is recorded
                 last["white"] = s.white_noise_surrogates()
@@ -29,7 +29,7 @@ def run_case(c):
             o["data_after"] = enc.arr(s.original_data, 1000)
         else:
             x = np.array([c["x"]], dtype=float)
-            s = Surrogates(original_data=x.copy(), silence_level=3)
+            s = Surrogates(original_data=enc.represent(x, c["case"])[0], silence_level=3)
             if c.get("prior"):
                 try:
                     s.twin_surrogates(dimension=3 - c["dim"], delay=1, threshold=8.0, min_dist=c["md"])
